@@ -95,9 +95,18 @@ theorem durationValue_total (b : Bucket) : ∃ r, durationValue b = .ok r := by
   · rw [if_neg h, durFromNanos_ok n (by omega) (by omega)]
     exact ⟨_, rfl⟩
 
-theorem bucketValue_total (ty : PType) (used : Nat) (b : Bucket) : ∃ r, bucketValue ty used b = .ok r := by
+/-- the pattern types of this file: LocalTime, LocalDate / LocalDateTime with an ISO template value, Offset, AnnualDate,
+    Duration; template values of other calendars and the calendar field are the subject of `C08Calendar.lean` -/
+def isoTy : PType → Bool
+  | .dateC _ => false
+  | .datetimeC _ => false
+  | _ => true
+
+theorem bucketValue_total (ty : PType) (hty : isoTy ty = true) (used : Nat) (b : Bucket) : ∃ r, bucketValue ty used b = .ok r := by
   unfold bucketValue
   cases ty with
+  | dateC tc => simp [isoTy] at hty
+  | datetimeC tc => simp [isoTy] at hty
   | time => exact ⟨_, rfl⟩
   | date => exact ⟨_, rfl⟩
   | offset =>
@@ -116,7 +125,7 @@ theorem bucketValue_total (ty : PType) (used : Nat) (b : Bucket) : ∃ r, bucket
     rw [ho]; exact ⟨_, rfl⟩
 
 /-- a stepped pattern of any of the modelled types: no exception for any text -/
-theorem parseCompiled_total (ty : PType) (c : Compiled) (l : Text) (h : c.steps.all stepModelled = true) :
+theorem parseCompiled_total (ty : PType) (hty : isoTy ty = true) (c : Compiled) (l : Text) (h : c.steps.all stepModelled = true) :
     ∃ r, parseCompiled ty c l = .ok r := by
   unfold parseCompiled
   split
@@ -128,17 +137,49 @@ theorem parseCompiled_total (ty : PType) (c : Compiled) (l : Text) (h : c.steps.
     | some p =>
       obtain ⟨b, rest⟩ := p
       dsimp only
-      obtain ⟨o, ho⟩ := bucketValue_total ty c.used b
+      obtain ⟨o, ho⟩ := bucketValue_total ty hty c.used b
       rw [ho]
       cases o with
       | none => exact ⟨_, rfl⟩
       | some v => dsimp only; split <;> exact ⟨_, rfl⟩
+
+theorem hasCalendarStep_of_modelled (steps : List Step) (h : steps.all stepModelled = true) : hasCalendarStep steps = false := by
+  unfold hasCalendarStep
+  rw [Bool.eq_false_iff]
+  intro hh
+  rw [List.any_eq_true] at hh
+  obtain ⟨s, hs, he⟩ := hh
+  rw [List.all_eq_true] at h
+  have := h s hs
+  have e : s = .calendar := by simpa using he
+  subst e
+  simp [stepModelled] at this
+
+/-- a pattern without the calendar step is evaluated by the bucket of its own type -/
+theorem evalType_of_modelled (ty : PType) (steps : List Step) (h : steps.all stepModelled = true) : evalType ty steps = ty := by
+  have hc := hasCalendarStep_of_modelled steps h
+  unfold evalType
+  cases ty <;> simp [hc]
 
 /-- segments all of whose steps are modelled -/
 def segOK : Seg → Bool
   | .plain ss => ss.all stepModelled
   | .date c => c.steps.all stepModelled
   | .time c => c.steps.all stepModelled
+
+/-- segments without a calendar step are evaluated by the ISO-template path -/
+theorem segsUseCalendar_of_segOK (segs : List Seg) (h : segs.all segOK = true) : segsUseCalendar segs = false := by
+  unfold segsUseCalendar
+  rw [Bool.eq_false_iff]
+  intro hh
+  rw [List.any_eq_true] at hh
+  obtain ⟨sg, hm, he⟩ := hh
+  rw [List.all_eq_true] at h
+  have hs := h sg hm
+  cases sg with
+  | plain ss => simp only [segOK] at hs; dsimp only at he; rw [hasCalendarStep_of_modelled ss hs] at he; cases he
+  | date c => simp only [segOK] at hs; dsimp only at he; rw [hasCalendarStep_of_modelled c.steps hs] at he; cases he
+  | time c => cases he
 
 theorem dtValueE_total (tm : Tmpl) (used : Nat) (b : Bucket) : ∃ r, dtValueE tm used b = .ok r := by
   unfold dtValueE
@@ -233,29 +274,32 @@ end
 mutual
 /-- **parse_total** for pattern objects (stepped, `Z`-prefixed, composite, nested arbitrarily): for every text a
     success or a failure result, never an exception -/
-theorem parsePat_total (ty : PType) (l : Text) : ∀ p : Pat, patOK p = true → ∃ r, parsePat ty l p = .ok r
-  | .stepped c, h => by simp only [patOK] at h; simp only [parsePat]; exact parseCompiled_total ty c l h
+theorem parsePat_total (ty : PType) (hty : isoTy ty = true) (l : Text) : ∀ p : Pat, patOK p = true → ∃ r, parsePat ty l p = .ok r
+  | .stepped c, h => by
+      simp only [patOK] at h; simp only [parsePat]
+      rw [evalType_of_modelled ty c.steps h]
+      exact parseCompiled_total ty hty c l h
   | .zprefix p, h => by
       simp only [patOK] at h; rw [parsePat]
       split
       · exact ⟨_, rfl⟩
-      · exact parsePat_total ty l p h
+      · exact parsePat_total ty hty l p h
   | .composite ps, h => by
       simp only [patOK] at h; rw [parsePat]
       split
       · exact ⟨_, rfl⟩
-      · exact parsePats_total ty l ps h
+      · exact parsePats_total ty hty l ps h
   | .segmented _ _ _, h => by simp [patOK] at h
-theorem parsePats_total (ty : PType) (l : Text) : ∀ ps : List Pat, patsOK ps = true → ∃ r, parsePats ty l ps = .ok r
+theorem parsePats_total (ty : PType) (hty : isoTy ty = true) (l : Text) : ∀ ps : List Pat, patsOK ps = true → ∃ r, parsePats ty l ps = .ok r
   | [], _ => by rw [parsePats]; exact ⟨_, rfl⟩
   | p :: ps, h => by
       simp only [patsOK, Bool.and_eq_true] at h
       rw [parsePats]
-      obtain ⟨r, hr⟩ := parsePat_total ty l p h.1
+      obtain ⟨r, hr⟩ := parsePat_total ty hty l p h.1
       rw [hr]
       cases r with
       | some v => exact ⟨_, rfl⟩
-      | none => exact parsePats_total ty l ps h.2
+      | none => exact parsePats_total ty hty l ps h.2
 end
 
 /-! ## what `compile` builds is modelled (LocalTime and Offset: always) -/
@@ -561,6 +605,8 @@ theorem compileLoop_modelled (ty : PType) (hty : noCalendarField ty = true) (cu 
           | datetime tm => cases hty
           | annual tm td => exact handleAnnual_grows cu c rest st st1 k hh
           | duration => exact handleDuration_grows cu c rest st st1 k hh
+          | dateC tc => cases hty
+          | datetimeC tc => cases hty
         obtain ⟨added, e1, e2⟩ := g
         exact ih _ st1 st' h (by rw [e1, List.all_append, hs, e2]; rfl)
 
@@ -666,15 +712,15 @@ theorem compileOffsetAux_patOK (cu : Culture) : ∀ (d : Nat) (t : Text) (p : Pa
     record, parsing any text returns a result value (a success or a failure), never an exception -/
 theorem time_parse_total (cu : Culture) (ptext : Text) (p : Pat) (h : compileTime cu ptext = .ok p) (l : Text) :
     ∃ r, parsePat .time l p = .ok r :=
-  parsePat_total .time l p (compileTime_patOK cu ptext p h)
+  parsePat_total .time rfl l p (compileTime_patOK cu ptext p h)
 
 theorem offset_parse_total (cu : Culture) (ptext : Text) (p : Pat) (h : compileOffset cu ptext = .ok p) (l : Text) :
     ∃ r, parsePat .offset l p = .ok r :=
-  parsePat_total .offset l p (compileOffsetAux_patOK cu 3 ptext p h)
+  parsePat_total .offset rfl l p (compileOffsetAux_patOK cu 3 ptext p h)
 
 /-- LocalDate patterns: the same for every compiled pattern that does not use the era / calendar fields -/
 theorem date_parse_total (p : Pat) (hp : patOK p = true) (l : Text) : ∃ r, parsePat .date l p = .ok r :=
-  parsePat_total .date l p hp
+  parsePat_total .date rfl l p hp
 
 /-! ## a success carries a valid value (Offset: every pattern object, whatever its steps) -/
 
@@ -849,6 +895,7 @@ theorem parseStep_time_ok (cu : Culture) (l : Text) (b b' : Bucket) (r : Text) (
   | monthText _ => simp [timeStepWF] at hw
   | dayText _ => simp [timeStepWF] at hw
   | era => simp [timeStepWF] at hw
+  | eraC _ => simp [timeStepWF] at hw
   | calendar => simp [timeStepWF] at hw
 
 theorem parseSteps_time_ok (cu : Culture) : ∀ (ss : List Step) (l : Text) (b b' : Bucket) (r : Text),
